@@ -67,6 +67,8 @@ def run_side(side: str, programs: list[str], jobs: int = NPROC) -> list[list[str
 
 def normalise(line: str, order_any: bool = False) -> str:
     line = MODEL_ONLY_FIELDS.sub("", line)
+    if line.startswith("err "):
+        line = re.sub(r" pulls_exec=\S+", "", line)      # diagnostic detail of the implementation side
     line = re.sub(r"SQLError:\w+", "SQLError", line)
     if " || hooks=" in line:
         head, hooks = line.split(" || hooks=", 1)
